@@ -1,6 +1,6 @@
 CONSTANTS
   ProgOf <- FamProgOf
-  MaxSteps = 6000
+  MaxSteps = 20000
   CtxDepth = 3
   HistLen = 6
   EmitOn = TRUE
